@@ -372,12 +372,13 @@ theorem rollback_shape (E : Env) (hQ : E.Q = {}) (hfin : E.finishOk = true) (p :
     NoOp H p (.rollback n) (rollbackP H E p n) ∨ Refused H E p (.rollback n) (rollbackP H E p n) ∨
     Accepted H E p (.rollback n) (rollbackP H E p n) := by
   have hpf : ¬ (p.poisoned = true) := by simp [hp]
+  have hq : E.Q.rollbackPoisonLate = false := by rw [hQ]
   unfold rollbackP
   by_cases h0 : n = 0
   · left
     simp [NoOp, h0, specCall, rollback]
   · right
-    simp only [if_neg h0]
+    simp only [if_neg h0, hq, Bool.not_false, Bool.true_and, if_neg hpf, Bool.false_eq_true, if_false]
     by_cases hro : p.mem.rollbackOn = true
     case neg =>
       left
@@ -400,7 +401,7 @@ theorem rollback_shape (E : Env) (hQ : E.Q = {}) (hfin : E.finishOk = true) (p :
         have hp2 : p2.poisoned = false := hp
         have hsc := storeCommit_spec E hQ false (traceback (p.mem.log.take n)) p2 hp2
         refine ⟨syncedMem false (traceback (p.mem.log.take n)) p2.mem, ?_,
-          [.guardWrite, .rbTruncate, .sessionFinish true, .poisonCheck true, .rootCheck true, .rootSet],
+          [.guardWrite, .poisonCheck true, .rbTruncate, .sessionFinish true, .poisonCheck true, .rootCheck true, .rootSet],
           (storeCommit E false (traceback (p.mem.log.take n)) p2).2.2,
           false, traceback (p.mem.log.take n), p2, p2.mem, ?_, ?_, ?_, ?_, ?_, ?_, ?_⟩
         · simp [specCall, rollback, h0, hro, hn, syncedMem, stagedMem, p2]
@@ -448,14 +449,24 @@ theorem HandleOnly.committed {m m' : St Node VH} (h : HandleOnly m m') :
   · intro x hx hc; exact ⟨x, hx, rfl, hc⟩
   · exact dropOv_committed_sub m oid
 
-/-- the four commits on a poisoned handle: refused before anything happens -/
-theorem poisoned_commit (E : Env) (p : PSt Node VH) (c : Call) (hp : p.poisoned = true) (hc : ∀ n, c ≠ .rollback n) :
+theorem poisoned_rollback_eq (E : Env) (hq : E.Q.rollbackPoisonLate = false) (p : PSt Node VH) (n : Nat) (hp : p.poisoned = true)
+    (hn : n ≠ 0) : rollbackP H E p n = ⟨.err, p, [.guardWrite, .poisonCheck false]⟩ := by
+  unfold rollbackP
+  simp [hn, hq, hp]
+
+/-- the five calls on a poisoned handle (`rollback(0)` is the no-op `Ok`): refused before anything happens -/
+theorem poisoned_commit (E : Env) (hq : E.Q.rollbackPoisonLate = false) (p : PSt Node VH) (c : Call) (hp : p.poisoned = true)
+    (hc : c ≠ .rollback 0) :
     (runCall H E p c).res ≠ .ok ∧ noEffect (runCall H E p c).trace = true ∧ noFail (runCall H E p c).trace = true ∧
     (∀ pos, failedAt pos (runCall H E p c).trace = false) ∧
     (runCall H E p c).st.poisoned = true ∧ (runCall H E p c).st.disk = p.disk ∧
     HandleOnly p.mem (runCall H E p c).st.mem ∧ ((runCall H E p c).res = .busy → (runCall H E p c).st = p) := by
   cases c with
-  | rollback n => exact absurd rfl (hc n)
+  | rollback n =>
+    have hn : n ≠ 0 := fun h => hc (by rw [h])
+    simp only [runCall]
+    rw [poisoned_rollback_eq H E hq p n hp hn]
+    simp [hp, HandleOnly, Step.effect, Step.failedIo, Step.failedAt]
   | commit fid =>
     simp only [runCall, commitFinP]
     cases ht : takeFin p.mem fid with
@@ -502,9 +513,16 @@ theorem poisoned_commit (E : Env) (p : PSt Node VH) (c : Call) (hp : p.poisoned 
             exact .inr (.inr ⟨oid, rfl⟩)
         · simp [hp, hb, hpar, HandleOnly, Step.effect, Step.failedIo, Step.failedAt]
 
-/-- `rollback(n)` on a poisoned handle returns `Err` (for `n > 0`) and leaves values, root, sequence number, marker, overlays
-and the disk alone — but NOT the in-memory rollback log: `Rollback::truncate(n)` runs before the poison flag is looked at -/
-theorem poisoned_rollback (E : Env) (p : PSt Node VH) (n : Nat) (hp : p.poisoned = true) (hn : n ≠ 0) :
+/-- `rollback(n)`, `n > 0`, on a poisoned handle (order as repaired for F21): refused right after the guard, nothing changes -/
+theorem poisoned_rollback (E : Env) (hq : E.Q.rollbackPoisonLate = false) (p : PSt Node VH) (n : Nat) (hp : p.poisoned = true)
+    (hn : n ≠ 0) : rollbackP H E p n = ⟨.err, p, [.guardWrite, .poisonCheck false]⟩ :=
+  poisoned_rollback_eq H E hq p n hp hn
+
+/-- the order before the repair of F21: `rollback(n)` on a poisoned handle returns `Err` and leaves values, root, sequence
+number, marker, overlays and the disk alone — but NOT the in-memory rollback log: `Rollback::truncate(n)` ran before the poison
+flag was looked at -/
+theorem poisoned_rollback_late (E : Env) (hq : E.Q.rollbackPoisonLate = true) (p : PSt Node VH) (n : Nat) (hp : p.poisoned = true)
+    (hn : n ≠ 0) :
     (rollbackP H E p n).res = .err ∧ noFail (rollbackP H E p n).trace = true ∧
     (∀ pos, failedAt pos (rollbackP H E p n).trace = false) ∧
     (rollbackP H E p n).st.poisoned = true ∧ (rollbackP H E p n).st.disk = p.disk ∧
@@ -512,7 +530,7 @@ theorem poisoned_rollback (E : Env) (p : PSt Node VH) (n : Nat) (hp : p.poisoned
      (p.mem.rollbackOn = true ∧ n ≤ p.mem.log.length ∧
       (rollbackP H E p n).st.mem = { p.mem with log := p.mem.log.drop n })) := by
   unfold rollbackP
-  simp only [if_neg hn]
+  simp only [if_neg hn, hq, Bool.not_true, Bool.false_and, Bool.false_eq_true, if_false, if_true]
   cases hro : p.mem.rollbackOn
   · simp [hp, Step.failedIo, Step.failedAt]
   · simp only [Bool.not_true, Bool.false_eq_true, if_false]
@@ -540,14 +558,16 @@ theorem rollback_finish_fails (E : Env) (hfin : E.finishOk = false) (p : PSt Nod
   by_cases h0 : n = 0
   · simp [h0]
   · simp only [if_neg h0]
-    cases hro : p.mem.rollbackOn
-    · simp [Step.failedIo, Step.failedAt]
-    · simp only [Bool.not_true, Bool.false_eq_true, if_false]
-      by_cases hl : n > p.mem.log.length
-      · simp [hl, Step.failedIo, Step.failedAt]
-      · rw [if_neg hl]
-        simp [hfin, Step.failedIo, Step.failedAt, h0]
-        omega
+    by_cases hpq : (!E.Q.rollbackPoisonLate && p.poisoned) = true
+    · simp [hpq, Step.failedIo, Step.failedAt]
+    · rw [if_neg hpq]
+      cases hro : p.mem.rollbackOn
+      · cases E.Q.rollbackPoisonLate <;> simp [Step.failedIo, Step.failedAt]
+      · simp only [Bool.not_true, Bool.false_eq_true, if_false]
+        by_cases hl : n > p.mem.log.length
+        · cases E.Q.rollbackPoisonLate <;> simp [hl, Step.failedIo, Step.failedAt]
+        · rw [if_neg hl]
+          cases E.Q.rollbackPoisonLate <;> simp [hfin, Step.failedIo, Step.failedAt, h0, noFail_append, failedAt_append] <;> omega
 
 end Nomt.Api.Pipe
 
